@@ -2427,10 +2427,10 @@ template< size_t L>
    va_list  ap;
 
    ::va_start( ap, format);
-   mLength = std::vsnprintf( mString, L + 1, format, ap);
+   const int  result = std::vsnprintf( mString, L + 1, format, ap);
    ::va_end( ap);
 
-   mLength = std::min( L, static_cast< size_t>( mLength));
+   mLength = (result < 0) ? 0 : std::min( L, static_cast< size_t>( result));
    mString[ mLength] = '\0';
 
    return *this;
